@@ -258,6 +258,105 @@ example : parseLua [s2b "LRANGE", s2b "l", s2b "0", s2b "-1"] = .ok ⟨s2b "LRan
   subst this
   rfl
 
+/-! ## the script semantics of the code refines the script specification of the reference model
+
+`Redis.stepScript` (Model/Redis.lean on main, used by C01 / C17) is Redis' own rule for a script that is a straight
+sequence of `redis.call` on data commands ending in `return 'done'`: every call runs as the command itself at the same
+instant, the first call that replies with an error raises it, the script stops there and the reply is that error;
+what the earlier calls wrote stays.  `m7StepScript` below is that definition (kept local so that this file does not
+depend on the other branch; the two are the same function, clause by clause).  The theorem says that the
+TRANSCRIPTION of `execute_lua_script` (`LuaScript.evalScript`: argument conversion, translator, execution, error
+unwrapping with the code-word rule, `lua_to_resp`) instantiated with the reference executor computes exactly this
+specification, for every state, instant and script of that form whose commands the translator knows. -/
+
+def m7StepScript (s : Redis.State) (now : Nat) : List Redis.Cmd → Redis.State × Redis.Reply
+  | [] => (s, .bulk [100, 111, 110, 101])
+  | c :: cs =>
+    match (Redis.step s now c).2 with
+    | .err e => ((Redis.step s now c).1, .err e)
+    | _ => m7StepScript (Redis.step s now c).1 now cs
+
+/-- a statement `redis.call(w1, …, wn)` with literal string words -/
+def litCall (ws : List Bytes) : Call := ⟨false, ws.map (fun w => AExpr.lit (.str w))⟩
+
+theorem argsBytes_lits (env : Env) (acc : List LuaVal) (ws : List Bytes) :
+    argsBytes ((litCall ws).args.map (AExpr.eval env acc)) = some ws := by
+  induction ws with
+  | nil => rfl
+  | cons w ws ih =>
+    simp only [litCall, List.map_cons, AExpr.eval, argsBytes, luaArgBytes] at ih ⊢
+    rw [ih]
+
+theorem toResp_error_iff (r : Redis.Reply) (t : Bytes) : toResp r = .error t ↔ ∃ e, r = .err e ∧ t = m7ErrText e := by
+  cases r <;> simp [toResp, eq_comm]
+
+theorem runCallsA_m7 (sem : Cmd → Option Redis.Cmd) (now : Nat) (env : Env) :
+    ∀ (stmts : List (List Bytes × Cmd × Redis.Cmd)) (acc : List LuaVal) (s : Redis.State),
+    (∀ x ∈ stmts, x.1 ≠ [] ∧ parseLua x.1 = .ok x.2.1 ∧ sem x.2.1 = some x.2.2) →
+    (runCallsA (m7Exec sem now) env acc s (stmts.map (fun x => litCall x.1))).state = (m7StepScript s now (stmts.map (·.2.2))).1 ∧
+    ((∃ e, (m7StepScript s now (stmts.map (·.2.2))).2 = .err e ∧
+        (runCallsA (m7Exec sem now) env acc s (stmts.map (fun x => litCall x.1))).halt = some (.raised (m7ErrText e))) ∨
+     ((m7StepScript s now (stmts.map (·.2.2))).2 = .bulk [100, 111, 110, 101] ∧
+        (runCallsA (m7Exec sem now) env acc s (stmts.map (fun x => litCall x.1))).halt = none)) := by
+  intro stmts
+  induction stmts with
+  | nil => intro acc s _; exact ⟨rfl, Or.inr ⟨rfl, rfl⟩⟩
+  | cons x xs ih =>
+    intro acc s h
+    obtain ⟨hne, hp, hs⟩ := h x (by simp)
+    obtain ⟨w, ws, hw⟩ : ∃ w ws, x.1 = w :: ws := by
+      cases hx : x.1 with
+      | nil => exact absurd hx hne
+      | cons w ws => exact ⟨w, ws, rfl⟩
+    have hargs := argsBytes_lits env acc x.1
+    rw [hw] at hargs hp
+    have hcall : doCall (m7Exec sem now) s false ((litCall x.1).args.map (AExpr.eval env acc)) =
+        callOutcome false (m7Exec sem now s x.2.1).1 (m7Exec sem now s x.2.1).2 := by
+      rw [hw]; exact doCall_ok (m7Exec sem now) hargs hp
+    have hexec : m7Exec sem now s x.2.1 = ((Redis.step s now x.2.2).1, toResp (Redis.step s now x.2.2).2) := by
+      simp [m7Exec, hs]
+    simp only [List.map_cons, runCallsA, m7StepScript]
+    have hprot : (litCall x.1).prot = false := rfl
+    rw [hprot, hcall, hexec]
+    cases hr : (Redis.step s now x.2.2).2 with
+    | err e =>
+      simp only [toResp, callOutcome]
+      exact ⟨rfl, Or.inl ⟨e, rfl, rfl⟩⟩
+    | simple t => simp only [toResp, callOutcome]; exact ih _ _ (fun y hy => h y (by simp [hy]))
+    | int i => simp only [toResp, callOutcome]; exact ih _ _ (fun y hy => h y (by simp [hy]))
+    | bulk b => simp only [toResp, callOutcome]; exact ih _ _ (fun y hy => h y (by simp [hy]))
+    | key c => simp only [toResp, callOutcome]; exact ih _ _ (fun y hy => h y (by simp [hy]))
+    | nil => simp only [toResp, callOutcome]; exact ih _ _ (fun y hy => h y (by simp [hy]))
+    | arr l => simp only [toResp, callOutcome]; exact ih _ _ (fun y hy => h y (by simp [hy]))
+
+/-- the transcription of `execute_lua_script` over the reference executor computes the reference model's script
+    rule: same final keyspace, same reply (the first error reply, or `done`), for every state, instant and script
+    of `redis.call` statements with literal words that the translator knows -/
+theorem script_refines_m7_spec (sem : Cmd → Option Redis.Cmd) (now : Nat) (env : Env) (s : Redis.State)
+    (stmts : List (List Bytes × Cmd × Redis.Cmd))
+    (h : ∀ x ∈ stmts, x.1 ≠ [] ∧ parseLua x.1 = .ok x.2.1 ∧ sem x.2.1 = some x.2.2) :
+    evalScript (m7Exec sem now) env s ⟨stmts.map (fun x => litCall x.1), .lit (.str (s2b "done"))⟩ =
+      ((m7StepScript s now (stmts.map (·.2.2))).1, some (toResp (m7StepScript s now (stmts.map (·.2.2))).2)) := by
+  obtain ⟨hst, hh⟩ := runCallsA_m7 sem now env stmts [] s h
+  simp only [evalScript, runCalls]
+  rcases hh with ⟨e, he, hhalt⟩ | ⟨hd, hhalt⟩
+  · rw [hhalt, he, hst]
+    simp only [toResp, raiseReply, m7_err_has_code e, if_true]
+  · rw [hhalt, hd, hst]
+    simp only [Ret.eval, luaToResp, toResp]
+    rfl
+
+/-- non-vacuity: `redis.call('GET','l')` on a keyspace where `l` is a list — the hypothesis holds, the specification
+    stops with WRONGTYPE and leaves the list, and so does the transcription -/
+example : (∀ x ∈ [(([s2b "GET", s2b "l"] : List Bytes), (⟨s2b "Get", [.s (s2b "l")]⟩ : Cmd), Redis.Cmd.get 1)],
+      x.1 ≠ [] ∧ parseLua x.1 = .ok x.2.1 ∧ semDemo x.2.1 = some x.2.2) ∧
+    (m7StepScript [(1, ⟨.list [[97]], none⟩)] 0 [.get 1]).2 = .err .wrongType := by
+  refine ⟨?_, by rfl⟩
+  intro x hx
+  simp only [List.mem_cons, List.mem_nil_iff, or_false] at hx
+  subst hx
+  exact ⟨by simp, by decide, by rfl⟩
+
 /-- the replies the conversion would NOT carry: a nil inside an array — MGET of a missing key on the
     empty keyspace.  MGET has no translator entry (it is refused in scripts: known finding); the
     statement says what adding it without repairing the nil conversion would do. -/
